@@ -24,16 +24,29 @@ pub struct Pool<T: Flavor> {
     pub flavor: &'static str,
     pub values: Vec<(GenericPurl<T>, String, Value)>, // value, canonical string, provenance
     seen: HashMap<u64, u8>,
+    derived_per_string: HashMap<u64, u8>,
 }
 
 impl<T: Flavor> Pool<T> {
     pub fn new(flavor: &'static str) -> Self {
-        Pool { flavor, values: Vec::new(), seen: HashMap::new() }
+        Pool { flavor, values: Vec::new(), seen: HashMap::new(), derived_per_string: HashMap::new() }
     }
     /// keep at most two instances per *structure* (the Debug form shows the stored fields, not the
     /// accessor view: two values that the accessors cannot tell apart but that are stored differently
     /// are both kept), so that values reached through different sources are compared with each other
     /// without flooding the pool
+    /// derived values: one instance per (structure, canonical string) is enough, and they are only
+    /// interesting while few values print the same
+    pub fn add_derived(&mut self, p: GenericPurl<T>, prov: impl FnOnce() -> Value) {
+        let Ok(s) = guarded(|| p.to_string()) else { return };
+        let n = self.derived_per_string.entry(h64(&s)).or_insert(0);
+        if *n >= 3 {
+            return;
+        }
+        *n += 1;
+        self.values.push((p, s, prov()));
+    }
+
     pub fn add(&mut self, p: GenericPurl<T>, prov: impl FnOnce() -> Value) {
         let Ok(o) = guarded(|| h64(&format!("{:?}", p))) else { return };
         let n = self.seen.entry(o).or_insert(0);
@@ -47,6 +60,42 @@ impl<T: Flavor> Pool<T> {
     }
 }
 
+/// Values reached through a further API sequence from a parsed value (re-built, qualifiers removed
+/// one by one / all at once / through the typed accessor, version set and unset): they must be
+/// indistinguishable from values that print the same and were obtained directly.
+const DERIVATIONS: [&str; 6] = ["rebuild", "without_qualifiers", "without_first_qualifier", "without_last_qualifier", "typed_checksum_none", "version_set_and_unset"];
+
+fn derive<T: Flavor>(p: &GenericPurl<T>, op: &str) -> Option<GenericPurl<T>> {
+    use purl::qualifiers::well_known::Checksum;
+    let b = p.clone().into_builder();
+    let keys: Vec<String> = p.qualifiers().iter().map(|(k, _)| k.as_str().to_owned()).collect();
+    let b = match op {
+        "rebuild" => b,
+        "without_qualifiers" => {
+            if keys.is_empty() {
+                return None;
+            }
+            b.without_qualifiers()
+        },
+        "without_first_qualifier" => b.without_qualifier(keys.first()?.as_str()),
+        "without_last_qualifier" => b.without_qualifier(keys.last()?.to_ascii_uppercase().as_str()),
+        "typed_checksum_none" => {
+            if !keys.iter().any(|k| k == "checksum") {
+                return None;
+            }
+            b.try_with_typed_qualifier(None::<Checksum>).ok()?
+        },
+        "version_set_and_unset" => {
+            if p.version().is_some() {
+                return None;
+            }
+            b.with_version("9").without_version()
+        },
+        _ => return None,
+    };
+    guarded(|| b.build().ok()).ok().flatten()
+}
+
 fn parse_lens_into<T: PFlavor>(pool: &mut Pool<T>, names: &[(&str, usize)], prefixes: Option<Vec<&'static str>>) {
     for (name, n) in names {
         let mut l = lens::lens(name);
@@ -58,6 +107,13 @@ fn parse_lens_into<T: PFlavor>(pool: &mut Pool<T>, names: &[(&str, usize)], pref
             // a panicking parse is C06's business; it cannot contribute a value
             if let Ok(Ok(p)) = guarded(|| T::parse(buf)) {
                 let src = buf.clone();
+                if !p.qualifiers().is_empty() {
+                    for op in DERIVATIONS {
+                        if let Some(d) = derive(&p, op) {
+                            pool.add_derived(d, || json!({"parsed": src, "then": op}));
+                        }
+                    }
+                }
                 pool.add(p, || json!({"parsed": src}));
             }
             if d == n {
@@ -282,7 +338,11 @@ pub fn run(tier: Tier) -> (Acc, Vec<Value>) {
 pub fn replay_pair(case: &Value) -> Option<Vec<Violation>> {
     fn remake<T: PFlavor>(prov: &Value, mk: &dyn Fn(&str) -> Option<T>) -> Option<GenericPurl<T>> {
         if let Some(s) = prov["parsed"].as_str() {
-            return T::parse(s).ok();
+            let p = T::parse(s).ok()?;
+            return match prov["then"].as_str() {
+                Some(op) => derive(&p, op),
+                None => Some(p),
+            };
         }
         let b = &prov["built"];
         let mut gb = GenericPurlBuilder::new(mk(b["ty"].as_str()?)?, b["name"].as_str()?).with_namespace(b["ns"].as_str()?).with_version(b["version"].as_str()?).with_subpath(b["subpath"].as_str()?);
